@@ -61,7 +61,7 @@ func verifC17a() {
 
 func verifC17b() { // groups, duplicates, result objects
 	verifC17run(&vProfile{name: "C17b", clauses: []string{"C17."},
-		maxScopes: 1, nRegs: 2, maxParams: 1, maxResults: 2, pForms: 2, rForms: 2, names: 2, groups: true, flatten: true,
+		maxScopes: 1, nRegs: 1, maxParams: 1, maxResults: 2, pForms: 2, rForms: 2, names: 2, groups: true, flatten: true,
 		faults: 1, nInvokes: 1, invParams: 1})
 }
 
@@ -195,13 +195,13 @@ func (h *vHist) candidate(a, b *vWorld, withBad bool) {
 
 func verifC06a() { // cycles and duplicates in a scope tree, Export
 	verifC06run(&vProfile{name: "C06a", clauses: []string{"C06."},
-		maxScopes: 2, nRegs: 2, maxParams: 1, maxResults: 1, pForms: 1, rForms: 1, names: 1, export: true,
+		maxScopes: 2, nRegs: 1, maxParams: 1, maxResults: 1, pForms: 1, rForms: 1, names: 1, export: true,
 		faults: 1, nInvokes: 1, invParams: 1}, false)
 }
 
 func verifC06b() { // malformed inputs and duplicate decorators
 	verifC06run(&vProfile{name: "C06b", clauses: []string{"C06."},
-		maxScopes: 2, nRegs: 2, maxParams: 1, maxResults: 1, pForms: 1, rForms: 1, names: 1, decorators: 2,
+		maxScopes: 2, nRegs: 1, maxParams: 1, maxResults: 1, pForms: 1, rForms: 1, names: 1, decorators: 2,
 		faults: 1, nInvokes: 1, invParams: 1}, true)
 }
 
@@ -404,14 +404,14 @@ func verifC15run(p *vProfile) {
 
 func verifC15a() {
 	verifC15run(&vProfile{name: "C15a", clauses: []string{"C15."},
-		maxScopes: 1, nRegs: 2, maxParams: 1, maxResults: 1, pForms: 2, rForms: 2, names: 2, optional: true,
+		maxScopes: 1, nRegs: 1, maxParams: 1, maxResults: 1, pForms: 2, rForms: 2, names: 2, optional: true,
 		faults: 1, nInvokes: 1, invParams: 1})
 }
 
 func verifC15b() { // groups and two results
 	verifC15run(&vProfile{name: "C15b", clauses: []string{"C15."},
 		maxScopes: 1, nRegs: 1, maxParams: 1, maxResults: 2, pForms: 2, rForms: 2, names: 1, groups: true,
-		faults: 1, nInvokes: 1, invParams: 2})
+		faults: 1, nInvokes: 1, invParams: 1})
 }
 
 func init() {
